@@ -323,7 +323,12 @@ def main():
                  "REPR checks that every display method of the package has no effect. DUCK: for every name probed by hasattr / "
                  "getattr-with-default in the anchored files, the classes of the package defining that name are the reference ones "
                  "(bvstatic/data/duck.json). CONV (R15.5 / R02.9 / R20.6): the functions on the path of a frame change store only "
-                 "into objects they created.",
+                 "into objects they created. INIT: the import-time statements of the package __init__ modules on the path of the "
+                 "anchored files are the reference ones. The DEP table also attaches three cores (time: dates/date.py, dates/eop.py, "
+                 "config.py; state: orbits/forms.py, statevector.py, orbit.py, constants.py, utils/node.py; frame: frames/*.py, "
+                 "utils/matrix.py, utils/memoize.py) to every property whose mechanism runs through them (DESIGN 11.5): a DEP report "
+                 "means 'a dependency of this property changed and could not be proven equal', and names the unit; "
+                 "BVSTATIC_NO_DEPS=1 gives the verdicts without it.",
     }
     with open(os.path.join(HERE, "MANIFEST.json"), "w") as f:
         json.dump(man, f, indent=1, ensure_ascii=False)
